@@ -89,6 +89,9 @@ func main() {
 			}()
 			props[id](c)
 		}()
+		if *tier == "thorough" && os.Getenv("VERIF_MUTANT_DIR") == "" && len(id) == 3 {
+			c.SelfTest = runSelfTest(id, abs, *verif)
+		}
 		if *dump {
 			for _, o := range c.Obs {
 				fmt.Printf("  [%s] %s %s @%s %s\n", o.Status, o.Rule, o.Construct, o.Pos, o.Msg)
